@@ -59,7 +59,8 @@ def mk(prefix, L, op, extra, sfx, more=None, checks='func', leak=False, timeout=
 
 def vsizes(M, tier, few=False):
     if few:
-        return [1, D + 1, D + E + 1] if M <= 2 else [1, D + 1]
+        # D: a value of exactly one full key slot (replacing a chained value by it must release the old extension blocks)
+        return [1, D + 1, D + E + 1] if M <= 2 else [1, D, D + 1]
     base = [1, D, D + 1]
     if tier == 'thorough':
         base += [D + E, D + E + 1]
